@@ -273,7 +273,22 @@ func ruleErrDropOwned(c *Ctx, u *Universe, prop string, extra func(fname string)
 			continue
 		}
 		seen[key] = true
-		if why, ok := allow[key]; ok {
+		why, ok := allow[key]
+		if !ok {
+			// an allowed pair whose function was inlined into this one keeps its permission
+			for ak, aw := range allow {
+				parts := strings.SplitN(ak, " -> ", 2)
+				if len(parts) != 2 || parts[1] != d.Field {
+					continue
+				}
+				for r := range u.Pkgs {
+					if strings.HasPrefix(parts[0], r+".") && len(parts[0]) > len(r)+1 && u.ssaFuncExact(r, parts[0][len(r)+1:]) == nil && u.inlinedInto(r, parts[0][len(r)+1:]) == d.Fn {
+						why, ok = aw+" (the listed function was inlined here)", true
+					}
+				}
+			}
+		}
+		if ok {
 			R.hold(rule, key, d.Pos, "reviewed: "+why)
 			continue
 		}
